@@ -30,6 +30,8 @@ type Config struct {
 	MaxViolations int
 	EagerChecks bool
 	Profile     bool
+	ConcIndex   bool
+	UnwindIsHang bool
 	FallbackTimeoutMs int
 	Progress    int
 }
@@ -140,6 +142,8 @@ type Machine struct {
 	pcAll    *sym.Term
 	FallbackQueries int
 	QuerySites map[string]int
+	lenientFmt bool
+	deadlineHit bool
 }
 
 func NewMachine(prog *ssa.Program, ctx *sym.Ctx, solver *sym.Solver, cfg Config) *Machine {
@@ -203,7 +207,15 @@ func (m *Machine) query(extra *sym.Term) (sym.Result, *sym.Model) {
 		}
 		m.QuerySites[pos]++
 	}
+	qstart := time.Now()
 	res, md := m.solver.Check(m.pc, extra, true)
+	if d := time.Since(qstart); d > 5*time.Second {
+		pos, fn, st := m.curPos()
+		if len(st) > 8 {
+			st = st[:8]
+		}
+		fmt.Fprintf(os.Stderr, "    slow query (%.1fs, %v) in %s at %s (harness %s) %v\n", d.Seconds(), res, fn, pos, m.harness, st)
+	}
 	if res == sym.Unknown && len(m.solver.Errors) == 0 {
 		// portfolio: retry the query on the other back ends before giving up
 		for _, name := range m.Cfg.Fallback {
@@ -348,6 +360,10 @@ func (m *Machine) choice(k int) int {
 
 // concretize forks over the feasible values of t (at most limit).
 func (m *Machine) concretize(t *sym.Term, limit int) int64 {
+	if t.IsConst() {
+		return t.Int()
+	}
+	t = m.simplify(t)
 	if t.IsConst() {
 		return t.Int()
 	}
@@ -536,6 +552,7 @@ func instrPos(fr frameRef) token.Pos {
 func (m *Machine) flushObligations() {
 	obl := m.obligations
 	m.obligations = nil
+	m.lenientFmt = false
 	savePC, saveFacts := m.pc, m.facts
 	m.pc, m.facts = nil, nil
 	defer func() { m.pc, m.facts = savePC, saveFacts }()
@@ -702,7 +719,7 @@ func (m *Machine) Explore(fn *ssa.Function) Outcome {
 		if m.Cfg.MaxPaths > 0 && m.Stats.Paths >= m.Cfg.MaxPaths {
 			return Outcome{false, fmt.Sprintf("path limit %d reached", m.Cfg.MaxPaths)}
 		}
-		if !m.Cfg.Deadline.IsZero() && time.Now().After(m.Cfg.Deadline) {
+		if m.deadlineHit || !m.Cfg.Deadline.IsZero() && time.Now().After(m.Cfg.Deadline) {
 			return Outcome{false, "deadline reached"}
 		}
 		if len(m.Stats.EngineErrors) > 20 {
